@@ -99,8 +99,8 @@ def program_tokens(p, ts):
     return out
 
 
-def sim_line(p, tab, perms, max_steps, timestep, n=200, fuel=4000):
-    out = ["SIM", str(n), str(fuel), str(-1 if max_steps is None else max_steps)]
+def sim_line(p, tab, perms, max_steps, timestep, n=200, fuel=4000, qsub=True):
+    out = ["SIM", "1" if qsub else "0", str(n), str(fuel), str(-1 if max_steps is None else max_steps)]
     out += program_tokens(p, timestep)
     out += [str(len(tab))]
     for row in tab:
@@ -269,3 +269,174 @@ def kinds(p):
 def empty_program(nobj=1):
     return dict(behaviors=[], monitors=[], scenarios=[dict(pre=[], inv=[], limit=None, termwhen=[], monitors=[], compose=None)],
                 objects=[None] * nobj, rec_init=[], records=[], rec_final=[], termsim=[])
+
+
+# ------------------------------------------------------------------ random generator
+class Gen:
+    """Seeded generator of DynCore programs.  Loop bodies always start with take/wait (so no loop
+    spins without yielding), behaviours/scenarios only invoke higher-numbered ones (no recursion)."""
+
+    def __init__(self, rng, horizon=8, allow_try=False, try_depth=2):
+        self.rng = rng
+        self.T = horizon
+        self.tab_kinds = []          # per row: bias used to draw it
+        self.allow_try = allow_try
+        self.try_depth = try_depth
+
+    def cond(self, bias=0.35, const=0.15):
+        r = self.rng.random()
+        if r < const:
+            return self.rng.random() < 0.5
+        self.tab_kinds.append(bias)
+        return len(self.tab_kinds) - 1
+
+    def table(self):
+        rows = []
+        for bias in self.tab_kinds:
+            rows.append([self.rng.random() < bias for _ in range(self.T)])
+        return rows
+
+    def dur(self, seconds_ok):
+        unit = "seconds" if (seconds_ok and self.rng.random() < 0.4) else "steps"
+        if unit == "steps":
+            n = self.rng.choice([0, 1, 1, 2, 2, 3, 4, 1.5, 2.0, 0.5])
+        else:
+            n = self.rng.choice([0, 0.1, 0.2, 0.3, 0.5, 0.6, 0.7, 1, 1.5, 2, 0.25, 0.9])
+        return n, unit
+
+    def block(self, ctx, depth, subs, n, in_block=False, in_loop=False, tdepth=0):
+        out = []
+        for _ in range(n):
+            out += self.stmt(ctx, depth, subs, in_block, in_loop, tdepth)
+        return out
+
+    def first_yield(self, ctx):
+        if ctx == "B" and self.rng.random() < 0.7:
+            return ("TK", self.rng.randint(1, 9))
+        return ("WT",)
+
+    def stmt(self, ctx, depth, subs, in_block, in_loop, tdepth):
+        rng = self.rng
+        ch = [("MK", 3), ("WT", 2), ("WF", 1), ("WU", 1), ("RQ", 0.25), ("TE", 0.25), ("TS", 0.2)]
+        if ctx == "B":
+            ch += [("TK", 5)]
+            if subs:
+                ch += [("DO", 2), ("DOF", 2), ("DOU", 2)]
+        if ctx == "S" and subs:
+            ch += [("DS", 3), ("DSF", 2), ("DSU", 2)]
+        if depth > 0:
+            ch += [("WH", 1.2), ("IF", 1.2)]
+            if self.allow_try and ctx == "B" and tdepth < self.try_depth:
+                ch += [("TRY", 4)]
+        if in_block:
+            ch += [("AB", 0.8), ("RT", 0.5)]
+            ch += [("BR", 0.6), ("CO", 0.4)] if in_loop else []
+        elif in_loop:
+            ch += [("BR", 0.4), ("CO", 0.3)]
+        elif self.allow_try and ctx == "B":
+            ch += [("RT", 0.15)]
+        k = rng.choices([c[0] for c in ch], [c[1] for c in ch])[0]
+        self.mk = getattr(self, "mk", 0) + 1
+        if k == "MK":
+            return [("MK", self.mk % 80)]
+        if k == "TK":
+            return [("TK", rng.randint(1, 9))]
+        if k == "WT":
+            return [("WT",)]
+        if k == "WF":
+            return [("WF",) + self.dur(self.seconds)]
+        if k == "WU":
+            return [("WU", self.cond())]
+        if k == "RQ":
+            return [("RQ", self.cond(bias=0.9, const=0.3))]
+        if k == "TE":
+            return [("MK", 90), ("TE",)]
+        if k == "TS":
+            return [("MK", 91), ("TS",)]
+        if k == "DO":
+            return [("DO", rng.choice(subs))]
+        if k == "DOF":
+            return [("DOF", rng.choice(subs)) + self.dur(self.seconds)]
+        if k == "DOU":
+            return [("DOU", rng.choice(subs), self.cond())]
+        if k in ("DS", "DSF", "DSU"):
+            ids = [rng.choice(subs) for _ in range(rng.choice([1, 1, 2]))]
+            if k == "DS":
+                return [("DS", ids)]
+            if k == "DSF":
+                return [("DSF", ids) + self.dur(self.seconds)]
+            return [("DSU", ids, self.cond())]
+        if k == "WH":
+            c = True if rng.random() < 0.4 else self.cond(bias=0.6, const=0)
+            body = [self.first_yield(ctx)] + self.block(ctx, depth - 1, subs, rng.randint(0, 2), in_block, True, tdepth)
+            return [("WH", c, body)]
+        if k == "IF":
+            return [("IF", self.cond(bias=0.5, const=0.1), self.block(ctx, depth - 1, subs, rng.randint(1, 2), in_block, in_loop, tdepth),
+                     self.block(ctx, depth - 1, subs, rng.randint(0, 1), in_block, in_loop, tdepth))]
+        if k == "TRY":
+            body = self.block(ctx, depth - 1, subs, rng.randint(1, 3), True, False, tdepth + 1)
+            hs = []
+            for _ in range(rng.randint(1, 3)):
+                hs.append((self.cond(bias=0.3, const=0.05), self.block(ctx, depth - 1, subs, rng.randint(1, 2), True, False, tdepth + 1)))
+            return [("TRY", body, hs)]
+        if k in ("AB", "BR", "CO", "RT"):
+            return [(k,)]
+        raise ValueError(k)
+
+    def ensure_yield(self, ctx, body):
+        ys = {"TK", "WT", "WF", "WU", "DO", "DOF", "DOU", "DS", "DSF", "DSU", "TE", "TS"}
+        if not any(s[0] in ys for s in walk(body)):
+            body.append(self.first_yield(ctx))
+        return body
+
+    def program(self):
+        rng = self.rng
+        self.seconds = rng.random() < 0.35
+        timestep = rng.choice([0.5, 0.1, 0.25, 2]) if self.seconds else 1
+        nb = rng.randint(1, 4)
+        nobj = rng.randint(1, 3)
+        ns = rng.choice([1, 1, 2, 3])
+        nm = rng.randint(0, 2)
+        p = empty_program(nobj)
+        for i in range(nb):
+            subs = list(range(i + 1, nb))
+            body = self.ensure_yield("B", self.block("B", 2, subs, rng.randint(1, 5)))
+            p["behaviors"].append(dict(pre=[self.cond(bias=0.95, const=0.5) for _ in range(rng.choice([0, 0, 0, 1]))],
+                                       inv=[self.cond(bias=0.93, const=0.3) for _ in range(rng.choice([0, 0, 1]))], body=body))
+        p["objects"] = [rng.choice([None, 0, 0, 0, 1 if nb > 1 else 0]) for _ in range(nobj)]
+        for i in range(nm):
+            p["monitors"].append(self.ensure_yield("M", self.block("M", 2, [], rng.randint(1, 3))))
+        p["scenarios"] = []
+        for i in range(ns):
+            subs = list(range(i + 1, ns))
+            comp = None
+            if rng.random() < (0.7 if i == 0 else 0.85):
+                comp = self.ensure_yield("S", self.block("S", 2, subs, rng.randint(1, 4)))
+                if subs and not any(x[0] in ("DS", "DSF", "DSU") for x in walk(comp)):
+                    comp.insert(0, rng.choice([("DS", [subs[0]]), ("DS", [subs[0]]), ("DSF", [subs[0]]) + self.dur(self.seconds),
+                                                                      ("DSU", [subs[0]], self.cond())]))
+            guards = i > 0 and rng.random() < 0.3
+            p["scenarios"].append(dict(
+                pre=[self.cond(bias=0.95, const=0.5)] if guards and rng.random() < 0.5 else [],
+                inv=[self.cond(bias=0.93, const=0.3)] if guards else [],
+                limit=self.dur(self.seconds) if rng.random() < 0.35 else None,
+                termwhen=[self.cond(bias=0.15, const=0.05) for _ in range(rng.choice([0, 0, 1, 2]))] if i == 0 else [],
+                monitors=[], compose=comp))
+        for m in range(nm):
+            p["scenarios"][rng.randrange(ns)]["monitors"].append(m)
+        nrec = rng.randint(0, 2)
+        p["records"] = list(range(nrec))
+        p["rec_init"] = [10] if rng.random() < 0.3 else []
+        p["rec_final"] = [20] if rng.random() < 0.3 else []
+        p["termsim"] = [self.cond(bias=0.12, const=0.05) for _ in range(rng.choice([0, 0, 1, 2]))]
+        return p, timestep
+
+
+def probe_submonitor_program():
+    """tiny witness: a monitor of a sub-scenario executes `terminate`; documented: only the
+    sub-scenario stops and Main goes on (3 more steps)"""
+    p = empty_program(1)
+    p["monitors"] = [[("WT",), ("MK", 90), ("TE",)]]
+    p["scenarios"][0]["compose"] = [("DS", [1]), ("MK", 1), ("WT",), ("WT",)]
+    p["scenarios"].append(dict(pre=[], inv=[], limit=None, termwhen=[], monitors=[0], compose=[("WH", True, [("WT",)])]))
+    return p
